@@ -109,6 +109,41 @@ def _c05_nontrivial(lines):
     return sum(l.startswith("begin") for l in lines) >= 2 and any(l.startswith("probe") for l in lines)
 
 
+def _ckey_judge(field):
+    # spec column = verdict of the Lean specification on the implementation's own output
+    def j(op, impl, spec):
+        if spec == "-":
+            return impl == "-"
+        return (field + "=ok") in spec.split()
+    return j
+
+
+def _store_nontrivial(lines):
+    # an overwrite/delete of a key while a reader is open, and a compaction
+    opened = False
+    wrote = set()
+    over = False
+    comp = False
+    for l in lines:
+        w = l.split(" ")
+        if w[0] == "begin":
+            opened = True
+        elif w[0] == "txn":
+            for x in w[1:]:
+                k = x.split("=")[0]
+                if k in wrote and opened:
+                    over = True
+                wrote.add(k)
+        elif w[0] == "compact":
+            comp = True
+    return over and comp
+
+
+_CKEY_STREAM = {"name": "ckey", "harness": "ckey", "driver": "ckey", "judge_driver": "ckey-judge",
+                "quick_cases": 100000, "thorough_cases": 100000, "nontrivial": lambda lines: len(lines) > 16}
+_STORE_STREAM = {"name": "store", "harness": "store", "driver": "store", "quick_cases": 150, "thorough_cases": 3000,
+                 "nontrivial": _store_nontrivial, "timeout": 3000}
+
 PROPS = {
     "C08": {
         "lean": ["Skv.Props.C08"],
@@ -233,5 +268,38 @@ PROPS = {
             "arena poisoning after ArenaFull are not yet exercised by this check (partial)",
         ],
         "trusted_base": ["modelled, not verified: CommitPipeline failure branches; the mock environment stands for WAL and memtable"],
+    },
+    "C01": {
+        "lean": ["Skv.Props.C01"],
+        "audit": "Skv/Audit/C01.lean",
+        "streams": [dict(_CKEY_STREAM, judge=_ckey_judge("reads")), _STORE_STREAM],
+        "rule": "(ckey) EXHAUSTIVE: every version list of one key with up to 3 (quick) / 4 (thorough) versions over kinds "
+                "{set, hard delete, soft delete, replace}, every subset of snapshot horizons interleaved with the versions, "
+                "bottom / non-bottom, fed to the real CompactionIterator (versions spread over two in-memory tables) and to "
+                "compactKey; outputs compared entry for entry and judged by the Lean specification readsOK; "
+                "(store) random histories on a real Tree: write transactions over 2-6 keys (prefix-related, 0x00/0xff), up to 4 "
+                "concurrent readers incl. readers sharing a start point, gets and forward/backward scans, with memtable rotation, "
+                "flush, compaction rounds and reopen placed between any two operations, 1-4 levels (max_bytes_for_level=1 so that "
+                "data is pushed to the last level), value log on/off; every answer compared with the map specification; "
+                "non-trivial = overwrite/delete while a reader is open plus a compaction; distinct = distinct op lists",
+        "assumptions": [
+            "k-way merge order and grouping by user key are exercised by the correspondence only (two sources per key)",
+            "the begin (load horizon, then register) vs. compaction snapshot-capture race is not explored by this check",
+        ],
+        "trusted_base": ["modelled, not verified: CompactionIterator::process_accumulated_versions, SnapshotTracker, Snapshot::get's component order"],
+    },
+    "C06": {
+        "lean": ["Skv.Props.C06"],
+        "audit": "Skv/Audit/C06.lean",
+        "streams": [dict(_CKEY_STREAM, judge=_ckey_judge("reads")), _STORE_STREAM],
+        "rule": "same two streams as C01: exhaustive per-key compaction inputs judged by readsOK (which includes the observer "
+                "'every later reader'), and store-level histories whose placements of rotation / flush / compaction / reopen vary "
+                "with the seed while the logical history is judged against the placement-free map specification",
+        "assumptions": [
+            "table selection for compaction (select_tables_for_compaction, overlapping ranges) and range-skip predicates are "
+            "covered by the store stream only, not by a theorem yet",
+            "block-cache transparency is exercised (cache on) but not varied or proved here (see C14 for id reuse)",
+        ],
+        "trusted_base": ["modelled, not verified: CompactionIterator::process_accumulated_versions; components as value lists"],
     },
 }
